@@ -340,7 +340,7 @@ func (c *skelChecker) entryPoints(ru *report.Rule) {
 			continue
 		}
 		sk := c.skel(fn)
-		if got, want := sk.print(nil), "A0=0; each(p1) {A0+=A1}"; got != want || len(sk.Problems) > 0 {
+		if got, want := sk.print(nil), "A0=0; for x0=0..len(p1)-1 {A0+=A1[x0]}"; got != want || len(sk.Problems) > 0 {
 			fail(fn, name, sprintf("Sum is not  identity; for each value: p += value  (skeleton «%s», expected «%s»)", got, want))
 		} else if sk.x.params[sk.norm[0].dst.root] != 0 {
 			fail(fn, name, "Sum does not accumulate into its receiver")
